@@ -479,9 +479,138 @@ func makers() []maker {
 	return out
 }
 
+// longRuns: fill-and-drain cycles with thousands of items (far beyond the depth of the exhaustive
+// sequences) - sizes on both sides of every power of two up to 64 Ki, where container implementations
+// switch representation, grow or shrink - against per-lane FIFO buckets.
+func longRuns(c *seq.Ctx) {
+	type lane struct{ items []int }
+	for _, mk := range makers() {
+		probe := mk.mk()
+		if probe.m.capReq != 0 && mk.kind != "priq" || probe.m.capCtrl != 0 {
+			continue // bounded variants refuse long fills; the priority queue gets its own big capacity below
+		}
+		for _, n := range []int{100, 1000, 4095, 4096, 4097, 8191, 8192, 8193, 16385, 20000, 65537} {
+			for _, pattern := range []string{"fill-drain", "sawtooth", "two-cycles"} {
+				var st *state
+				if mk.kind == "priq" {
+					x := priq.NewPriQueue(n + 8)
+					st = &state{m: &model{kind: "priq"}, a: &adapter{
+						add: func(v int) string { return norm(x.Push(pent{priOf[v%5], v}), nil, priq.ErrQueueIsFull, nil) },
+						pop: func() (int, string) {
+							e := x.Pop()
+							if e == nil {
+								return 0, "empty"
+							}
+							return e.(pent).v, "ok"
+						},
+						length: x.Len}}
+					if mk.name != "priq.PriQueue/cap=1" {
+						continue
+					}
+				} else {
+					st = mk.mk()
+				}
+				a := st.a
+				// reference: lanes in hand-out order; lane 0 = ctrl (or highest priority) ... each FIFO
+				nl := 1
+				laneOf := func(v int) int { return 0 }
+				switch mk.kind {
+				case "mq":
+					nl = 2
+					laneOf = func(v int) int { return v % 2 } // even tokens go to the ctrl lane
+				case "priq":
+					nl = 5
+					order := []int{4, 2, 1, 0, 3} // priOf index by descending priority: MaxInt, 2, 1, 0, MinInt
+					rank := map[int]int{}
+					for r, pi := range order {
+						rank[pi] = r
+					}
+					laneOf = func(v int) int { return rank[v%5] }
+				}
+				lanes := make([]lane, nl)
+				next, size := 0, 0
+				bad := ""
+				push := func(k int) {
+					for i := 0; i < k && bad == ""; i++ {
+						next++
+						v := next
+						var got string
+						if mk.kind == "mq" && v%2 == 0 {
+							got = a.addCtrl(v)
+						} else {
+							got = a.add(v)
+						}
+						if got != "ok" {
+							bad = fmt.Sprintf("add #%d (queue holds %d) answered %s", v, size, got)
+							return
+						}
+						lanes[laneOf(v)].items = append(lanes[laneOf(v)].items, v)
+						size++
+						if a.length != nil && a.length() != size {
+							bad = fmt.Sprintf("after add #%d Len() = %d, want %d", v, a.length(), size)
+						}
+					}
+				}
+				pop := func(k int) {
+					for i := 0; i < k && bad == ""; i++ {
+						want := -1
+						for li := range lanes {
+							if len(lanes[li].items) > 0 {
+								want = lanes[li].items[0]
+								lanes[li].items = lanes[li].items[1:]
+								break
+							}
+						}
+						var got int
+						var res string
+						switch {
+						case a.tryPop != nil:
+							var has bool
+							got, has, _ = a.tryPop()
+							res = map[bool]string{true: "ok", false: "empty"}[has]
+						case a.popAnyway != nil:
+							got, res = a.popAnyway()
+						default:
+							got, res = a.pop()
+						}
+						size--
+						if res != "ok" || got != want {
+							bad = fmt.Sprintf("pop with %d items queued handed out %d (%s), the model says %d", size+1, got, res, want)
+							return
+						}
+						if a.length != nil && a.length() != size {
+							bad = fmt.Sprintf("after a pop Len() = %d, want %d", a.length(), size)
+						}
+					}
+				}
+				switch pattern {
+				case "fill-drain":
+					push(n)
+					pop(n)
+				case "sawtooth":
+					push(n)
+					pop(n / 2)
+					push(n / 2)
+					pop(size)
+					push(3)
+					pop(3)
+				case "two-cycles":
+					push(n)
+					pop(n - 1)
+					push(n)
+					pop(size)
+				}
+				c.Case(fmt.Sprintf("long/%s/%s/%v", mk.kind, pattern, bad == ""), bad, mk.kind+" queue loses, reorders or miscounts items in a long "+pattern+" run", func() interface{} {
+					return map[string]interface{}{"queue": mk.name, "n": n, "pattern": pattern}
+				})
+			}
+		}
+	}
+}
+
 func main() {
 	r := ev.Start("C12")
-	r.Rule("per queue type and capacity: (a) plain enumeration of ALL sequences of non-blocking calls (add / prior add / ctrl add / pop / pop-anyway / try-pop / close / try-close / try-clear / push with priority 0..2) up to the stated depth with no state merging; (b) breadth-first with merging on the list-model state to a greater depth; in both, after EVERY step the call's result, IsClosed/IsCleared/Len and a full drain of a replayed copy are compared with a list model (two lists for MQ, stable priority order for the priority queue); distinct = (op, result) pairs")
+	r.Rule("per queue type and capacity: (a) plain enumeration of ALL sequences of non-blocking calls (add / prior add / ctrl add / pop / pop-anyway / try-pop / close / try-close / try-clear / push with priority 0..2) up to the stated depth with no state merging; (b) breadth-first with merging on the list-model state to a greater depth; in both, after EVERY step the call's result, IsClosed/IsCleared/Len and a full drain of a replayed copy are compared with a list model (two lists for MQ, stable priority order for the priority queue); (c) long fill-and-drain, sawtooth and two-cycle runs of 100..65537 items on every unbounded queue and a large priority queue against per-lane FIFO buckets; distinct = (op, result) pairs")
 	r.Assume("only calls the model says cannot block are issued (blocking is C13)", "try-close on an already closed and try-clear on an already cleared queue may answer either way")
 	var jobs []func()
 	for _, mk := range makers() {
@@ -498,6 +627,7 @@ func main() {
 			seq.Explore(r, &seq.Spec[*state]{Name: mk.name + "/merged", Ops: o, New: mk.mk, After: after, AtEnd: atEnd, Key: key, Depth: r.Pick(10, 13)})
 		})
 	}
+	jobs = append(jobs, func() { seq.RunFamily(r, seq.Family{Name: "long-fill-and-drain", Run: longRuns}) })
 	seq.Parallel(16, jobs)
 	r.Finish()
 }
